@@ -571,6 +571,8 @@ class t2listing(object):
         while tname != tablename:
             self.skipto('@@@@@')
             tname = self.next_table_TOUGH2()
+            if tname is None:
+                raise Exception('Table ' + tablename + ' not found in listing at current time.')
 
     def skip_to_table_TOUGHplus(self, tablename, last_tablename, nelt_tables):
         if last_tablename is None:
@@ -578,12 +580,24 @@ class t2listing(object):
             self.skip_to_nonblank()
             tname = 'element'
             nelt_tables = 0
-        else: tname = last_tablename
+        else:
+            tname = last_tablename
+            # number of additional element tables up to (and including) the last table:
+            ilast = self._tablenames.index(last_tablename)
+            elt_tables = [t for t in self._tablenames[:ilast + 1] if t.startswith('element')]
+            if elt_tables: nelt_tables = max([int(t[7:] or 0) for t in elt_tables])
+        # positioned among the rows of the last table, rather than at a table header:
+        in_table = last_tablename is not None
         while tname != tablename:
-            if tname == 'primary': keyword='_____'
-            else: keyword = '@@@@@'
-            self.skipto(keyword,0)
+            if tname == 'primary':
+                # the line ending the primary table also starts the next table, so skip
+                # only over the primary table header (if positioned there):
+                if not in_table: self.skipto('_____',0)
+            else: self.skipto('@@@@@',0)
+            in_table = False
             tname = self.next_table_TOUGHplus()
+            if tname is None:
+                raise Exception('Table ' + tablename + ' not found in listing at current time.')
             if tname == 'element':
                 nelt_tables += 1
                 tname += str(nelt_tables)
